@@ -1,8 +1,542 @@
-//! Typed wrappers and `Fits64` (filled in below)
-pub fn run(args: &[String]) -> i32 {
-    if args[6] != "-" {
-        std::fs::write(&args[6], "").unwrap();
+//! Typed wrappers (`Set64<T>`, `SetUsize`) behind the `USet` interface, and the `Fits64` tables.
+//! Values travel through the engine as the raw bit pattern of `T`; the trace carries `to_u64`.
+use crate::engine::*;
+use crate::uset::*;
+use std::hash::{Hash, Hasher};
+use tinyset::{Fits64, Set64, SetUsize};
+
+pub trait Elem: Fits64 + Copy + Ord + Eq + std::fmt::Debug + Send + Sync + 'static {
+    const NAME: &'static str;
+    const BITS: u32;
+    fn from_raw(v: u64) -> Self;
+    fn to_raw(self) -> u64;
+}
+macro_rules! elem_int {
+    ($t:ty, $name:expr, $bits:expr) => {
+        impl Elem for $t {
+            const NAME: &'static str = $name;
+            const BITS: u32 = $bits;
+            fn from_raw(v: u64) -> Self {
+                v as $t
+            }
+            fn to_raw(self) -> u64 {
+                (self as u64) & (u64::MAX >> (64 - $bits))
+            }
+        }
+    };
+}
+elem_int!(u8, "u8", 8);
+elem_int!(u16, "u16", 16);
+elem_int!(u32, "u32", 32);
+elem_int!(u64, "u64", 64);
+elem_int!(usize, "usize", 64);
+elem_int!(i8, "i8", 8);
+elem_int!(i16, "i16", 16);
+elem_int!(i32, "i32", 32);
+elem_int!(i64, "i64", 64);
+elem_int!(isize, "isize", 64);
+impl Elem for char {
+    const NAME: &'static str = "char";
+    const BITS: u32 = 32;
+    fn from_raw(v: u64) -> Self {
+        let x = (v % 0x110000) as u32;
+        std::char::from_u32(x).unwrap_or(std::char::from_u32(x ^ 0x800 ^ 0x1000).unwrap_or('a'))
     }
-    eprintln!("HSUMMARY type=typed profile={} seed={} histories=0 distinct_signatures=0 oracle_failures=0 wall_ms=0", args[2], args[3]);
-    0
+    fn to_raw(self) -> u64 {
+        self as u64
+    }
+}
+
+struct Rec(Vec<u64>);
+impl Hasher for Rec {
+    fn finish(&self) -> u64 {
+        0
+    }
+    fn write(&mut self, bytes: &[u8]) {
+        for b in bytes {
+            self.0.push(0x100 + *b as u64);
+        }
+    }
+    fn write_u64(&mut self, i: u64) {
+        self.0.push(i);
+    }
+}
+
+#[derive(Clone, Debug)]
+pub struct W64<T: Elem>(pub Set64<T>);
+impl<T: Elem> PartialEq for W64<T> {
+    fn eq(&self, o: &Self) -> bool {
+        self.0 == o.0
+    }
+}
+
+macro_rules! it_typed {
+    ($self:ident, $which:ident, $pos:ident, $body:ident) => {
+        match $which {
+            It::Iter => $body!($self.0.iter(), $pos),
+            It::Into => $body!($self.0.clone().into_iter(), $pos),
+            It::IntoClone => {
+                let mut it = $self.0.clone().into_iter();
+                for _ in 0..$pos {
+                    it.next();
+                }
+                $body!(it.clone(), 0)
+            }
+        }
+    };
+}
+macro_rules! nexts_t {
+    ($it:expr, $pos:expr) => {{
+        let mut it = $it;
+        for _ in 0..$pos {
+            it.next();
+        }
+        let mut v = vec![];
+        while let Some(x) = it.next() {
+            v.push(x.to_raw());
+        }
+        let fused = it.next().is_none() && it.next().is_none();
+        (v, fused)
+    }};
+}
+
+impl<T: Elem> USet for W64<T> {
+    const W: u32 = 64;
+    const NAME: &'static str = "Set64";
+    const HEADER: usize = 24;
+    const ELEM: usize = 8;
+    const ALIGN: usize = 8;
+    const TYPED: bool = true;
+    const HAS_OWN_OPS: bool = false;
+    fn enc(v: u64) -> u64 {
+        T::from_raw(v).to_u64()
+    }
+    fn norm(v: u64) -> u64 {
+        T::from_raw(v).to_raw()
+    }
+    fn pick(v: &[u64], max: bool) -> Option<u64> {
+        let it = v.iter().map(|&x| T::from_raw(x));
+        if max {
+            it.max().map(|x| x.to_raw())
+        } else {
+            it.min().map(|x| x.to_raw())
+        }
+    }
+    fn hash_words(&self) -> Option<Vec<u64>> {
+        let mut r = Rec(vec![]);
+        self.0.hash(&mut r);
+        Some(r.0)
+    }
+    fn max_elem() -> u64 {
+        u64::MAX >> (64 - T::BITS)
+    }
+    fn new() -> Self {
+        W64(Set64::new())
+    }
+    fn wcb(cap: usize, _bits: u64) -> Self {
+        W64(Set64::with_capacity(cap))
+    }
+    fn wcm(cap: usize, _mx: u64) -> Self {
+        W64(Set64::with_capacity(cap))
+    }
+    fn wco(_o: &Self) -> Self {
+        W64(Set64::new())
+    }
+    fn ins(&mut self, v: u64) -> bool {
+        self.0.insert(T::from_raw(v))
+    }
+    fn rem(&mut self, v: u64) -> bool {
+        self.0.remove(&T::from_raw(v))
+    }
+    fn con(&self, v: u64) -> bool {
+        self.0.contains(T::from_raw(v)) && self.0.contains(&T::from_raw(v))
+    }
+    fn len(&self) -> usize {
+        self.0.len()
+    }
+    fn is_empty(&self) -> bool {
+        self.0.is_empty()
+    }
+    fn capacity(&self) -> usize {
+        self.0.verif_inner().capacity()
+    }
+    fn mem_used(&self) -> usize {
+        self.0.verif_inner().mem_used()
+    }
+    fn collect(v: &[u64]) -> Self {
+        W64(v.iter().map(|&x| T::from_raw(x)).collect())
+    }
+    fn extend(&mut self, v: &[u64]) {
+        std::iter::Extend::extend(&mut self.0, v.iter().map(|&x| T::from_raw(x)))
+    }
+    fn items(&self) -> Vec<u64> {
+        self.0.iter().map(|x| x.to_raw()).collect()
+    }
+    fn into_items(self) -> Vec<u64> {
+        self.0.into_iter().map(|x| x.to_raw()).collect()
+    }
+    fn drain_items(&mut self) -> Vec<u64> {
+        self.0.drain().map(|x| x.to_raw()).collect()
+    }
+    fn drain_drop(&mut self, take: usize) -> Vec<u64> {
+        let mut d = self.0.drain();
+        let mut v = vec![];
+        for _ in 0..take {
+            if let Some(x) = d.next() {
+                v.push(x.to_raw());
+            }
+        }
+        v
+    }
+    fn repr(&self) -> (usize, Heap) {
+        let r = self.0.verif_inner().verif_repr();
+        (r.word, r.heap)
+    }
+    fn nexts(&self, which: It, pos: usize) -> (Vec<u64>, bool) {
+        it_typed!(self, which, pos, nexts_t)
+    }
+    fn shortcut(&self, which: It, pos: usize, kind: &str) -> Option<u64> {
+        macro_rules! sc_t {
+            ($it:expr, $p:expr) => {{
+                let mut it = $it;
+                for _ in 0..$p {
+                    it.next();
+                }
+                match kind {
+                    // T's own order; the engine's oracle compares raw bit patterns, so map through the order of T
+                    "min" => it.min().map(|x| x.to_raw()),
+                    "max" => it.max().map(|x| x.to_raw()),
+                    "last" => it.last().map(|x| x.to_raw()),
+                    "count" => Some(it.count() as u64),
+                    _ => {
+                        let (lo, hi) = it.size_hint();
+                        if hi == Some(lo) {
+                            Some(lo as u64)
+                        } else {
+                            Some(u64::MAX)
+                        }
+                    }
+                }
+            }};
+        }
+        it_typed!(self, which, pos, sc_t)
+    }
+    fn union_ref(a: &Self, b: &Self) -> Self {
+        W64(&a.0 | &b.0)
+    }
+    fn union_own(a: Self, b: &Self) -> Self {
+        W64(&a.0 | &b.0)
+    }
+    fn diff_ref(a: &Self, b: &Self) -> Self {
+        W64(&a.0 - &b.0)
+    }
+    fn diff_own(a: Self, b: &Self) -> Self {
+        W64(&a.0 - &b.0)
+    }
+    fn debug_string(&self) -> String {
+        format!("{:?}", self.0)
+    }
+    #[cfg(any(feature = "serde", feature = "compactserde"))]
+    fn to_json(&self) -> String {
+        String::new()
+    }
+    #[cfg(any(feature = "serde", feature = "compactserde"))]
+    fn from_json(_s: &str) -> Result<Self, String> {
+        Err("typed".into())
+    }
+}
+
+#[derive(Clone, Debug, PartialEq)]
+pub struct WUsize(pub SetUsize);
+macro_rules! nexts_u {
+    ($it:expr, $pos:expr) => {{
+        let mut it = $it;
+        for _ in 0..$pos {
+            it.next();
+        }
+        let mut v = vec![];
+        while let Some(x) = it.next() {
+            v.push(x as u64);
+        }
+        let fused = it.next().is_none() && it.next().is_none();
+        (v, fused)
+    }};
+}
+macro_rules! sc_u {
+    ($it:expr, $pos:expr, $kind:expr) => {{
+        let mut it = $it;
+        for _ in 0..$pos {
+            it.next();
+        }
+        match $kind {
+            "min" => it.min().map(|x| x as u64),
+            "max" => it.max().map(|x| x as u64),
+            "last" => it.last().map(|x| x as u64),
+            "count" => Some(it.count() as u64),
+            _ => {
+                let (lo, hi) = it.size_hint();
+                if hi == Some(lo) {
+                    Some(lo as u64)
+                } else {
+                    Some(u64::MAX)
+                }
+            }
+        }
+    }};
+}
+impl USet for WUsize {
+    const W: u32 = 64;
+    const NAME: &'static str = "SetUsize";
+    const HEADER: usize = 24;
+    const ELEM: usize = 8;
+    const ALIGN: usize = 8;
+    fn max_elem() -> u64 {
+        u64::MAX
+    }
+    fn new() -> Self {
+        WUsize(SetUsize::new())
+    }
+    fn wcb(_cap: usize, _bits: u64) -> Self {
+        WUsize(SetUsize::new())
+    }
+    fn wcm(_cap: usize, _mx: u64) -> Self {
+        WUsize(SetUsize::default())
+    }
+    const TYPED: bool = true;
+    fn wco(o: &Self) -> Self {
+        WUsize(SetUsize::with_capacity_of(&o.0))
+    }
+    fn ins(&mut self, v: u64) -> bool {
+        self.0.insert(v as usize)
+    }
+    fn rem(&mut self, v: u64) -> bool {
+        self.0.remove(v as usize)
+    }
+    fn con(&self, v: u64) -> bool {
+        self.0.contains(v as usize)
+    }
+    fn len(&self) -> usize {
+        self.0.len()
+    }
+    fn is_empty(&self) -> bool {
+        self.0.is_empty()
+    }
+    fn capacity(&self) -> usize {
+        self.0.capacity()
+    }
+    fn mem_used(&self) -> usize {
+        self.0.verif_inner().mem_used()
+    }
+    fn collect(v: &[u64]) -> Self {
+        WUsize(v.iter().map(|&x| x as usize).collect())
+    }
+    fn extend(&mut self, v: &[u64]) {
+        std::iter::Extend::extend(&mut self.0, v.iter().map(|&x| x as usize))
+    }
+    fn items(&self) -> Vec<u64> {
+        self.0.iter().map(|x| x as u64).collect()
+    }
+    fn into_items(self) -> Vec<u64> {
+        self.0.into_iter().map(|x| x as u64).collect()
+    }
+    fn drain_items(&mut self) -> Vec<u64> {
+        self.0.drain().map(|x| x as u64).collect()
+    }
+    fn drain_drop(&mut self, take: usize) -> Vec<u64> {
+        let mut d = self.0.drain();
+        let mut v = vec![];
+        for _ in 0..take {
+            if let Some(x) = d.next() {
+                v.push(x as u64);
+            }
+        }
+        v
+    }
+    fn repr(&self) -> (usize, Heap) {
+        let r = self.0.verif_inner().verif_repr();
+        (r.word, r.heap)
+    }
+    fn nexts(&self, which: It, pos: usize) -> (Vec<u64>, bool) {
+        match which {
+            It::Iter => nexts_u!(self.0.iter(), pos),
+            _ => nexts_u!(self.0.clone().into_iter(), pos),
+        }
+    }
+    fn shortcut(&self, which: It, pos: usize, kind: &str) -> Option<u64> {
+        match which {
+            It::Iter => sc_u!(self.0.iter(), pos, kind),
+            _ => sc_u!(self.0.clone().into_iter(), pos, kind),
+        }
+    }
+    fn union_ref(a: &Self, b: &Self) -> Self {
+        WUsize(&a.0 | &b.0)
+    }
+    fn union_own(a: Self, b: &Self) -> Self {
+        WUsize(a.0 | &b.0)
+    }
+    fn diff_ref(a: &Self, b: &Self) -> Self {
+        WUsize(&a.0 - &b.0)
+    }
+    fn diff_own(a: Self, b: &Self) -> Self {
+        WUsize(a.0 - &b.0)
+    }
+    fn debug_string(&self) -> String {
+        format!("{:?}", self.0)
+    }
+    #[cfg(any(feature = "serde", feature = "compactserde"))]
+    fn to_json(&self) -> String {
+        serde_json::to_string(&self.0).unwrap()
+    }
+    #[cfg(any(feature = "serde", feature = "compactserde"))]
+    fn from_json(s: &str) -> Result<Self, String> {
+        serde_json::from_str(s).map(WUsize).map_err(|e| e.to_string())
+    }
+}
+
+/// `Fits64` tables: exhaustive for 8/16-bit, boundary lattice + samples for wider types, all
+/// boundaries of the scalar-value range for `char`.  Lines: `fits <ty> <raw> <to_u64>`.
+fn fits_table<T: Elem>(out: &mut dyn std::io::Write, rng: &mut Xs, samples: usize, fails: &mut Vec<String>) -> u64 {
+    let mut vals: Vec<u64> = vec![];
+    if T::BITS <= 16 {
+        vals.extend(0..(1u64 << T::BITS));
+    } else {
+        for k in 0..T::BITS {
+            let b = 1u64 << k;
+            vals.extend_from_slice(&[b.wrapping_sub(1), b, b.wrapping_add(1), !b, (!b).wrapping_add(1)]);
+        }
+        vals.extend_from_slice(&[0, 1, u64::MAX, u64::MAX - 1, 0xD7FF, 0xD800, 0xDFFF, 0xE000, 0x10FFFF, 0x110000, 0xFFFF, 0x10000]);
+        for _ in 0..samples {
+            vals.push(rng.next() >> rng.below(64));
+            vals.push(!(rng.next() >> rng.below(64)));
+        }
+    }
+    let mut seen = std::collections::BTreeMap::new();
+    let mut n = 0;
+    for v in vals {
+        let x = T::from_raw(v);
+        let raw = x.to_raw();
+        let enc = x.to_u64();
+        writeln!(out, "fits {} {} {}", T::NAME, raw, enc).unwrap();
+        n += 1;
+        let back = unsafe { T::from_u64(enc) };
+        if back != x {
+            fails.push(format!("ORACLE-FAIL props=C03 type={} hist=fits step=0 from_u64(to_u64({:?})) = {:?}", T::NAME, x, back));
+        }
+        if let Some(prev) = seen.insert(enc, raw) {
+            if prev != raw {
+                fails.push(format!("ORACLE-FAIL props=C03 type={} hist=fits step=0 to_u64 maps the distinct values with bit patterns {} and {} to the same code {}", T::NAME, prev, raw, enc));
+            }
+        }
+        // magnitude: |x| as u128 from the sign-extended raw pattern
+        let signed = T::NAME.starts_with('i');
+        let mag: u128 = if signed {
+            let sh = 64 - T::BITS;
+            let s = ((raw << sh) as i64) >> sh;
+            (s as i128).unsigned_abs()
+        } else {
+            raw as u128
+        };
+        let bound = if signed { 2 * mag + 1 } else { mag };
+        if (enc as u128) > bound {
+            fails.push(format!("ORACLE-FAIL props=C03 type={} hist=fits step=0 to_u64({:?}) = {} exceeds the bound {}", T::NAME, x, enc, bound));
+        }
+    }
+    n
+}
+
+fn typed_run<S: USet>(args: &[String], label: &str) -> (i32, String) {
+    let profile = args[2].trim_start_matches("typed");
+    let profile = if profile.is_empty() { "core" } else { profile };
+    let profile = match profile {
+        "iter" => "iter",
+        "collect" => "collect",
+        "clone" => "alloc",
+        "hash" | "ops" => "eqops",
+        "hints" => "hints",
+        "inline" => "typedinline",
+        "dense" => "typeddense",
+        "serde" => "serde",
+        p => p,
+    };
+    let seed: u64 = args[3].parse().unwrap();
+    let hists: usize = args[4].parse().unwrap();
+    let steps: usize = args[5].parse().unwrap();
+    let path = format!("{}.{}", args[6], label);
+    let out: Box<dyn std::io::Write> = Box::new(std::io::BufWriter::new(std::fs::File::create(&path).unwrap()));
+    let mode = if cfg!(feature = "det") { Mode::Det } else if cfg!(feature = "rand") { Mode::Script } else { Mode::Splitmix };
+    let mut e: Eng<S> = Eng::new(seed, mode, out);
+    crate::profiles::run_profile(&mut e, profile, hists, steps);
+    e.finish();
+    drop(std::mem::replace(&mut e.out, Box::new(std::io::sink())));
+    for (k, v) in &e.stats {
+        eprintln!("HSTAT {}:{} {}", label, k, v);
+    }
+    for s in e.samples.iter().take(3) {
+        eprintln!("HSAMPLE [{}] {}", label, s);
+    }
+    eprintln!("HSUMMARY type={} profile={} seed={} histories={} distinct_signatures={} oracle_failures={} wall_ms=0", label, profile, seed, hists, e.sig.len(), e.fails.len());
+    ((!e.fails.is_empty()) as i32, path)
+}
+
+pub fn run(args: &[String]) -> i32 {
+    let mut rc = 0;
+    let mut parts: Vec<String> = vec![];
+    if args[2] == "fits" {
+        let seed: u64 = args[3].parse().unwrap();
+        let samples: usize = args[4].parse::<usize>().unwrap() * 20000;
+        let mut rng = Xs::new(seed);
+        let mut fails = vec![];
+        let path = format!("{}.fits", args[6]);
+        let mut n = 0;
+        {
+            let mut out = std::io::BufWriter::new(std::fs::File::create(&path).unwrap());
+            use std::io::Write;
+            writeln!(out, "cfg 64 script").unwrap();
+            writeln!(out, "hist fits").unwrap();
+            n += fits_table::<u8>(&mut out, &mut rng, samples, &mut fails);
+            n += fits_table::<u16>(&mut out, &mut rng, samples, &mut fails);
+            n += fits_table::<u32>(&mut out, &mut rng, samples, &mut fails);
+            n += fits_table::<u64>(&mut out, &mut rng, samples, &mut fails);
+            n += fits_table::<usize>(&mut out, &mut rng, samples, &mut fails);
+            n += fits_table::<i8>(&mut out, &mut rng, samples, &mut fails);
+            n += fits_table::<i16>(&mut out, &mut rng, samples, &mut fails);
+            n += fits_table::<i32>(&mut out, &mut rng, samples, &mut fails);
+            n += fits_table::<i64>(&mut out, &mut rng, samples, &mut fails);
+            n += fits_table::<isize>(&mut out, &mut rng, samples, &mut fails);
+            n += fits_table::<char>(&mut out, &mut rng, samples, &mut fails);
+        }
+        for f in fails.iter().take(20) {
+            eprintln!("{}", f);
+        }
+        eprintln!("HSTAT fits:values {}", n);
+        eprintln!("HSAMPLE fits i8 255 1   (raw bit pattern, to_u64)");
+        eprintln!("HSUMMARY type=Fits64 profile=fits seed={} histories=11 distinct_signatures=11 oracle_failures={} wall_ms=0", seed, fails.len());
+        rc |= (!fails.is_empty()) as i32;
+        parts.push(path);
+    } else {
+        macro_rules! go {
+            ($t:ty, $label:expr) => {{
+                let (r, p) = typed_run::<$t>(args, $label);
+                rc |= r;
+                parts.push(p);
+            }};
+        }
+        go!(W64<i32>, "Set64_i32");
+        go!(W64<u8>, "Set64_u8");
+        go!(W64<i64>, "Set64_i64");
+        go!(W64<char>, "Set64_char");
+        go!(W64<u64>, "Set64_u64");
+        go!(W64<i8>, "Set64_i8");
+        go!(W64<u16>, "Set64_u16");
+        go!(W64<isize>, "Set64_isize");
+        go!(WUsize, "SetUsize");
+    }
+    // concatenate the parts into the requested trace file
+    let mut all = std::fs::File::create(&args[6]).unwrap();
+    for p in parts {
+        let mut f = std::fs::File::open(&p).unwrap();
+        std::io::copy(&mut f, &mut all).unwrap();
+        let _ = std::fs::remove_file(&p);
+    }
+    rc
 }
